@@ -42,6 +42,7 @@ public:
     template <class N> static bool adopt(N& n, const ephemeralnet::PeerId& peer, int fd) { return n.sessions_.adopt_outbound_socket(peer, fd, true); }
     template <class N> static bool cached(N& n, const ephemeralnet::ChunkId& c) { return n.manifest_cache_.count(ephemeralnet::chunk_id_to_string(c)) != 0; }
     template <class N> static std::size_t manifests(N& n) { return n.manifest_cache_.size(); }
+    template <class N, class M> static void deliver(N& n, const M& message) { n.handle_transport_message(message); }
 };
 }
 #define private public
@@ -213,14 +214,27 @@ int main() {
                 }
                 else if (acode == 6) {
                     // a well-formed, correctly signed ANNOUNCE that assigns this node a shard and whose endpoint text is `bytes`
-                    // (ports that overflow every integer type, signs, blanks, no port at all): the node later parses that text
-                    pr::Message an6{}; an6.version = pr::kCurrentMessageVersion; an6.type = pr::MessageType::Announce;
-                    pr::AnnouncePayload x{}; x.chunk_id = cid; x.peer_id = A->id; x.ttl = std::chrono::seconds(60);
-                    x.manifest_uri = genuine_uri; x.endpoint = std::string(bytes.begin(), bytes.end()); x.assigned_shards = {1};
-                    an6.payload = x;
-                    send_msg(*A, bid, an6);
-                    std::this_thread::sleep_for(std::chrono::milliseconds(30));
-                    hv::guarded(out, [&] { B->tick(); });
+                    // (ports that overflow every integer type, signs, blanks, no port at all).  The announcer has shaken hands
+                    // but holds no transport session at that moment (it reached the node through another connection), so the
+                    // node has to parse the text to call back.  Delivered to the handler the receive loop calls; then a tick.
+                    en::PeerId pid{}; pid[0] = 0xE1; pid[1] = static_cast<std::uint8_t>(f); pid[31] = 6;
+                    en::Config pc6{}; pc6.identity_seed = 60u + static_cast<std::uint32_t>(f); pc6.handshake_pow_difficulty = 0; pc6.relay_enabled = false; pc6.storage_persistent_enabled = false;
+                    en::Node phantom(pid, pc6);
+                    const auto work = phantom.generate_handshake_work(bid);
+                    if (work && B->perform_handshake(pid, phantom.public_identity(), *work)) {
+                        const auto k6 = B->session_key(pid);
+                        if (k6) {
+                            pr::Message an6{}; an6.version = pr::kCurrentMessageVersion; an6.type = pr::MessageType::Announce;
+                            pr::AnnouncePayload x{}; x.chunk_id = cid; x.chunk_id[5] = static_cast<std::uint8_t>(0x60 + f); x.peer_id = pid; x.ttl = std::chrono::seconds(60);
+                            auto m6 = m; m6.chunk_id = x.chunk_id;
+                            x.manifest_uri = pr::encode_manifest(m6); x.endpoint = std::string(bytes.begin(), bytes.end()); x.assigned_shards = {1};
+                            an6.payload = x;
+                            nw::TransportMessage tm6{}; tm6.peer_id = pid; tm6.endpoint = "127.0.0.1:1";
+                            tm6.payload = pr::encode_signed(an6, std::span<const std::uint8_t>(k6->data(), k6->size()));
+                            hv::guarded(out, [&] { TA::deliver(*B, tm6); });
+                            hv::guarded(out, [&] { B->tick(); });
+                        }
+                    }
                 }
                 else if (acode == 3 || acode == 4) {
                     // length-field sweep over a valid message: at every offset of its encoding, 1..3 consecutive 32-bit words are
